@@ -227,6 +227,60 @@ func init() {
 		emit(wide, "wide", "-", 12)
 	}
 
+	// group `ops` (ops_conc_ops.go): every operation of a type after other operations on the SAME type.
+	// whole-set families (all eight operations in a fixed order after one earlier operation / Pretouch) for every
+	// type; single-operation families (the operation alone vs after each other operation) for a sample of types
+	// in the quick tier and for all of them in the thorough tier
+	emitOpsFamilies := func(g *Gen, emit func(pre []string, probes, tag string, chunk int), singles bool) {
+		thorough := g.Tier == "thorough"
+		types := []string{"S1", "S2", "S3", "S4", "S5", "S6", "S7"}
+		opsOf := []string{"val", "ptr", "iface", "slice", "map", "pmap", "u", "us"}
+		for _, T := range types {
+			pre := []string{"none", "use:ops." + T + ".ptr", "use:ops." + T + ".slice", "use:ops." + T + ".u", "use:ops." + T + ".val",
+				"pt:ops" + T, "pt:ops" + T + "p:i1r2", "ptm:ops", "use:ops." + T + ".pmap+use:ops." + T + ".us"}
+			if thorough {
+				pre = append(pre, "use:ops."+T+".map+use:ops."+T+".ptr", "use:ops."+T+".iface", "ptm:ops:i1r3+use:ops."+T+".ptr", "use:ops:"+itoa(g.R.Intn(1<<20)))
+			}
+			emit(pre, "ops."+T, "-", 12)
+		}
+		if !singles {
+			return
+		}
+		pick := map[string]bool{types[g.R.Intn(len(types))]: true, types[g.R.Intn(3)]: true}
+		for _, T := range types {
+			if !thorough && !pick[T] {
+				continue
+			}
+			for _, op := range opsOf {
+				if !thorough && op != "val" && op != "u" && op != "map" {
+					continue
+				}
+				fam := []string{"none", "pt:ops" + T}
+				for _, q := range opsOf {
+					if q != op && (thorough || q == "ptr" || q == "slice" || q == "u" || q == "val") {
+						fam = append(fam, "use:ops."+T+"."+q)
+					}
+				}
+				emit(fam, "ops."+T+"."+op, "-", 12)
+			}
+		}
+	}
+
+	// C09, VM encoder + alternative decoder (SONIC_ENCODER_USE_VM=1 SONIC_USE_OPTDEC=1): the `ops` families
+	registerGen("c09.histops", func(g *Gen) {
+		emit := func(pre []string, probes, tag string, chunk int) {
+			for len(pre) > 0 {
+				n := chunk
+				if n > len(pre) {
+					n = len(pre)
+				}
+				g.Emit("phist", strings.Join(pre[:n], "|"), probes, tag)
+				pre = pre[n:]
+			}
+		}
+		emitOpsFamilies(g, emit, g.Tier == "thorough")
+	})
+
 	// C09, alternative decoder (worker and children run with SONIC_USE_OPTDEC=1): decoder-relevant families only
 	registerGen("c09.histopt", func(g *Gen) {
 		thorough := g.Tier == "thorough"
@@ -305,6 +359,8 @@ func init() {
 		emit(pre, "samename", "same_name_two_pkgs", 12)
 		// ---- defined pointer types with Unmarshaler elements, wide structs
 		emitDecoderFamilies(g, emit)
+		// ---- operations on one type in different orders (shared field metadata)
+		emitOpsFamilies(g, emit, true)
 		// ---- two distinct reflect.StructOf types with the same runtime hash and layout: every probe alone
 		// after the other type was used / pretouched first
 		collide := []string{"collide.x", "collide.y", "collide.xptr", "collide.yptr", "collide.x.u", "collide.y.u"}
